@@ -491,7 +491,7 @@ var opKinds = []string{
 	"checkin", "checkin", "checkin", "checkin",
 	"sleep", "sleep", "cfgkill", "cfgwh",
 	"exit", "killdate", "markdead", "markdead", "markalive", "markalive",
-	"ladd", "ladd", "ladd", "ladd", "lremove", "lremove", "ledit",
+	"ladd", "ladd", "ladd", "ladd", "ladd", "ladd", "lremove", "lremove", "ledit",
 }
 
 func genOps(t *rapid.T, n, nagents int, allowHTTP bool) []Op {
